@@ -83,9 +83,26 @@ def proj(b):
 def run_real(bib, lib_abs, keyof, order, keep):
     M = bib.model
     cls = kind_classes(M)
-    blocks = [build_block(M, b, keyof(b), i) for i, b in enumerate(lib_abs)]
-    lib = bib.Library(blocks)
-    if [b.raw for b in lib.blocks] != [b["id"] for b in lib_abs]:
+    # start lines deliberately disagree with the library order (a library filled by several parses, or by hand)
+    n = len(lib_abs)
+    lines = [None if (i % 4 == 3) else (n - i) * 3 for i in range(n)]
+    lib = bib.Library()
+    for i, b in enumerate(lib_abs):
+        if b["kind"] == "dup":
+            # a duplicate wrapper as the LIBRARY makes it: add a block holding the key (unless one is live), add the
+            # duplicate, remove the helper again - the wrapper stays at its position
+            key = keyof(b)
+            helper = None
+            if key not in lib.entries_dict:
+                helper = M.Entry("article", key, [], start_line=0, raw="helper")
+                lib.add(helper)
+            lib.add(M.Entry("book", key, [M.Field("x", "y " + b["id"])], start_line=lines[i], raw=b["id"]))
+            if helper is not None:
+                lib.remove(helper)
+        else:
+            lib.add(build_block(M, b, keyof(b), lines[i]))
+    if [b.raw for b in lib.blocks] != [b["id"] for b in lib_abs] or \
+            [type(x).__name__ == "DuplicateBlockKeyBlock" for x in lib.blocks] != [b["kind"] == "dup" for b in lib_abs]:
         raise core.MachineryError("library construction changed the blocks (duplicate keys in generator?)")
     before = [proj(b) for b in lib.blocks]
     try:
